@@ -543,7 +543,7 @@ pub fn check_copy(case: &CopyCase) -> CaseResult {
 }
 
 pub fn run(c: &Ctx) {
-    c.set_rule("exhaustive: every tree over the namespace {/a,/b} x {a,b} where each top-level slot is missing / file / link (to /a,/b,/a/a,/nope,/b/b) / directory with two children each missing / file / dir / link (3025 trees; every fourth gets non-default modes, owners or both; every third additionally holds bystanders whose names begin with a namespace name: /ab/keep, /a-old, /a/ab), materialised on a fresh Memfs; x every ordered (src,dst) pair of 12 paths (the namespace, root, missing names, a missing parent, deeper-than-namespace) x {copy, copy+chmod_all, +chmod_dirs, +chmod_files, +follow, move_p, chmod_files-then-chmod_all, chmod_all-then-chmod_dirs (the later option replaces the earlier)}. quick: a seeded 1/3 of the trees, thorough: all (3.5 M cases); a seeded 1/40 (quick) / 1/12 (thorough) of the cases whose arguments do not pass through a link also runs through Stdfs on a tmpfs copy of the tree (materialised and observed with std::fs), same predicates. Oracle: postcondition predicates on the dump before/after (DESIGN section 4 C09): source untouched, every source entry has a copy at the same relative path with same kind/bytes/link target, new entries carry the source mode unless the chmod option selects their kind, existing entries kept, nothing outside the destination changes (except created ancestors); move: source gone, destination == former subtree (modes, owners, bytes, link text; relative links resolve from the new location), rest unchanged, failed move changes nothing; C03 invariants; call returns. Non-trivial = src exists and (dst exists or src/dst nested or an option is set); distinct by (tree, src, dst, variant).");
+    c.set_rule("exhaustive: every tree over the namespace {/a,/b} x {a,b} where each top-level slot is missing / file / link (to /a,/b,/a/a,/nope,/b/b) / directory with two children each missing / file / dir / link (3025 trees; every fourth gets non-default modes, owners or both; every third additionally holds bystanders whose names begin with a namespace name: /ab/keep, /a-old, /a/ab), materialised on a fresh Memfs; x every ordered (src,dst) pair of 12 paths (the namespace, root, missing names, a missing parent, deeper-than-namespace) x {copy, copy+chmod_all, +chmod_dirs, +chmod_files, +follow, move_p, chmod_files-then-chmod_all, chmod_all-then-chmod_dirs (the later option replaces the earlier)}. quick: a seeded 1/3 of the trees, thorough: all (3.5 M cases); a seeded 1/40 (quick) / 1/12 (thorough) of the cases whose arguments do not pass through a link also runs through Stdfs on a tmpfs copy of the tree (materialised and observed with std::fs), same predicates. Oracle: postcondition predicates on the dump before/after (DESIGN section 4 C09): source untouched, every source entry has a copy at the same relative path with same kind/bytes/link target, new entries carry the source mode unless the chmod option selects their kind, existing entries kept, nothing outside the destination changes (except created ancestors); move: source gone, destination == former subtree (modes, owners, bytes, link text; relative links resolve from the new location), rest unchanged, failed move changes nothing; C03 invariants; call returns. Plus three moves across a mount point on Stdfs (fresh name, into a directory that holds an empty directory of that name, onto an existing file): a relocation or a refusal that changes nothing. Non-trivial = src exists and (dst exists or src/dst nested or an option is set); distinct by (tree, src, dst, variant).");
     c.assume("copy with follow on a source containing links: only frame conditions are asserted (placement undocumented)");
     let trees = all_trees();
     let paths = arg_paths();
@@ -601,6 +601,97 @@ pub fn run(c: &Ctx) {
     });
     if den == 1 {
         c.set_exhaustive(true);
+    }
+    // move_p across a mount point (the sandbox is on tmpfs; the other side is the first of a few scratch locations that
+    // lives on another device): rename cannot do it, so whatever the backend does instead still has to be a
+    // relocation - or a refusal that changes nothing. Skipped (counted) where no second device is writable.
+    {
+        use std::os::unix::fs::{MetadataExt, PermissionsExt};
+        let here = crate::sandbox::root().join("c09-xdev");
+        let _ = std::fs::create_dir_all(&here);
+        let dev_here = std::fs::metadata(&here).map(|m| m.dev()).unwrap_or(0);
+        let other = ["/tmp", "/var/tmp", "/verif/out"].iter().map(std::path::PathBuf::from).find(|p| std::fs::metadata(p).map(|m| m.dev() != dev_here && m.is_dir()).unwrap_or(false));
+        match other {
+            None => c.class("xdev:no-second-device(skipped)"),
+            Some(base) => {
+                let there = base.join(format!("rvh-xdev-{}", std::process::id()));
+                // a snapshot of a subtree: relative path -> (kind, bytes, mode)
+                fn snap(root: &std::path::Path) -> Vec<(String, String)> {
+                    let mut out = vec![];
+                    fn walk(root: &std::path::Path, p: &std::path::Path, out: &mut Vec<(String, String)>) {
+                        let md = match std::fs::symlink_metadata(p) {
+                            Ok(m) => m,
+                            Err(_) => return,
+                        };
+                        let rel = p.strip_prefix(root).map(|r| r.to_string_lossy().to_string()).unwrap_or_default();
+                        if md.is_dir() {
+                            out.push((rel, format!("dir {:o}", md.permissions().mode() & 0o7777)));
+                            let mut kids: Vec<_> = std::fs::read_dir(p).map(|d| d.flatten().map(|e| e.path()).collect()).unwrap_or_default();
+                            kids.sort();
+                            for k in kids {
+                                walk(root, &k, out);
+                            }
+                        } else {
+                            out.push((rel, format!("file {:o} {:?}", md.permissions().mode() & 0o7777, std::fs::read(p).unwrap_or_default())));
+                        }
+                    }
+                    walk(root, root, &mut out);
+                    out
+                }
+                let v = Vfs::stdfs();
+                for shape in 0..3u8 {
+                    let _ = std::fs::remove_dir_all(&here);
+                    let _ = std::fs::remove_dir_all(&there);
+                    let _ = std::fs::create_dir_all(here.join("src/sub"));
+                    let _ = std::fs::create_dir_all(&there);
+                    let _ = std::fs::write(here.join("src/f"), b"moved bytes");
+                    let _ = std::fs::write(here.join("src/sub/g"), b"g");
+                    let _ = std::fs::set_permissions(here.join("src/f"), std::fs::Permissions::from_mode(0o640));
+                    let (src, dst, lands): (std::path::PathBuf, std::path::PathBuf, std::path::PathBuf) = match shape {
+                        0 => (here.join("src"), there.join("fresh"), there.join("fresh")),
+                        1 => {
+                            // an existing directory that already holds an empty directory of the source's name
+                            let _ = std::fs::create_dir_all(there.join("d/src"));
+                            (here.join("src"), there.join("d"), there.join("d/src"))
+                        },
+                        _ => {
+                            let _ = std::fs::write(there.join("old"), b"old destination bytes, longer");
+                            let _ = std::fs::set_permissions(there.join("old"), std::fs::Permissions::from_mode(0o600));
+                            (here.join("src/f"), there.join("old"), there.join("old"))
+                        },
+                    };
+                    let before_src = snap(&src);
+                    let before_there = snap(&there);
+                    c.eval(1);
+                    c.nontrivial(fp(&("xdev", shape)));
+                    c.class("xdev:move-across-a-mount-point");
+                    mark("xdev", &format!("{}", shape));
+                    let out = v.move_p(&src, &dst);
+                    let res = match out {
+                        Err(_) => {
+                            if snap(&src) != before_src || snap(&there) != before_there {
+                                Err(Failure::new("move_p|across-devices|failed-but-changed-something|stdfs", format!("shape {}: move_p({:?}, {:?}) failed, yet source or destination side changed: {:?} -> {:?}", shape, src, dst, before_there, snap(&there))))
+                            } else {
+                                Ok(())
+                            }
+                        },
+                        Ok(()) => {
+                            let landed = snap(&lands);
+                            if std::fs::symlink_metadata(&src).is_ok() {
+                                Err(Failure::new("move_p|across-devices|source-still-there|stdfs", format!("shape {}: Ok but {:?} still exists", shape, src)))
+                            } else if landed != before_src {
+                                Err(Failure::new("move_p|across-devices|destination-differs-from-former-source|stdfs", format!("shape {}: move_p({:?}, {:?}) -> Ok: {:?} holds {:?}, the source was {:?}", shape, src, dst, lands, landed, before_src)))
+                            } else {
+                                Ok(())
+                            }
+                        },
+                    };
+                    c.judge("xdev", &json!(shape), res);
+                }
+                let _ = std::fs::remove_dir_all(&there);
+            },
+        }
+        let _ = std::fs::remove_dir_all(&here);
     }
     crate::sandbox::cleanup();
 }
